@@ -84,6 +84,9 @@ func (fr *Frame) exec(in ssa.Instruction) {
 		}
 		fr.set(x, &Val{K: VFunc, T: x.Type(), S: IntLit(fr.u.v.typeTag(types.NewPointer(x.Fn.Type())) + 1000), Fn: &closureInfo{fn: x.Fn.(*ssa.Function), bindings: bs}})
 	case *ssa.MakeMap:
+		if x.Reserve != nil {
+			fr.allocBound(x, fr.intOf(x.Reserve), "map size hint")
+		}
 		r := fr.allocRaw()
 		fr.st.storeCell("int", r, IntLit(0), IntLit(0)) // ghost: number of entries
 		fr.set(x, &Val{K: VMap, T: x.Type(), S: r})
@@ -157,6 +160,7 @@ func (fr *Frame) makeSlice(x *ssa.MakeSlice) {
 	cp := fr.intOf(x.Cap)
 	fr.oblig(x, "make.neg", And(Le(IntLit(0), ln), Le(ln, cp)), "makeslice: len out of range")
 	fr.oblig(x, "alloc.bound", Le(cp, IntBig(new(big.Int).Lsh(MaxLen, 2))), "makeslice: requested size is below 2^50 elements")
+	fr.allocBound(x, cp, "makeslice")
 	el := x.Type().Underlying().(*types.Slice).Elem()
 	r := fr.allocRaw()
 	seen := map[string]bool{}
@@ -1047,4 +1051,22 @@ func modTargetRef(env *Env, m Clause) (r *Term, err error) {
 	}
 	efail("unsupported modifies target %s", m.Src)
 	return nil, nil
+}
+
+// allocBound: with an `alloc` clause, every non-constant allocation size is bounded by it (memory proportional to the input).
+func (fr *Frame) allocBound(in ssa.Instruction, size *Term, what string) {
+	top := fr.u.top
+	if top == nil || top.contract == nil || top.contract.Alloc == nil {
+		return
+	}
+	if _, lit := size.Int64(); lit {
+		return
+	}
+	env := top.contractEnv(top.params, nil, top.entry, top.entry)
+	cv, err := env.safeEval(top.contract.Alloc.E)
+	if err != nil {
+		fr.u.errs = append(fr.u.errs, fmt.Sprintf("%s: alloc %s: %v (contract.attach)", top.contract.Alloc.Where, top.contract.Alloc.Src, err))
+		return
+	}
+	fr.oblig(in, "alloc.limit", Le(size, cv.asInt()), what+": size bounded by the declared measure "+top.contract.Alloc.Src)
 }
